@@ -15,7 +15,7 @@ CONSTANTS
   Quantum = 1
   MaxTime = 0
   Rule = "sum"
-  Cfgs = {"A"}
+  Cfgs = {"A", "B", "C"}
   InitCfg = "A"
   RL = "safe"
   Off = {}
